@@ -242,6 +242,28 @@ for _k, _v in _ADD9.items():
     if _k in CHECKS and _v not in CHECKS[_k]["text"]:
         CHECKS[_k]["text"] += _v
 
+_ADD10 = {
+    "C02": " R1 reads each envelope's configuration together with what it inherits from the Pydantic-branch base class (v2 `model_config` and v1 `class Config`).",
+    "C03": " Added: R7 — the handshake functions leave the request id to send_message (fresh uuid4) or hand on their own caller's: an id fixed by the library lets a late answer to an abandoned attempt be taken for this one's.",
+    "C06": " R2 also demands that the message itself reaches json.dumps only on a path where `isinstance(message, str)` is false (an exact-type test lets a str subclass through), and tests a trimmed copy of the caller's text on itself.",
+    "C08": " R2 extended: the envelope builders the dispatcher answers through (create_error_response / create_response and what wraps them) call nothing that can raise besides the envelope constructor.",
+    "C09": " R1 extended: where `__post_init__` is reached under Pydantic only through `model_post_init`, that method stores nothing into the object before it delegates (the two backends run the check on the same values).",
+    "C10": " Added: R7 — envelope classes that override model_dump/model_dump_json never rewrite payload values (lifted from C02-R5). Model configurations include what the base class sets.",
+    "C11": " R6 extended: the body is not cut into lines by httpx's `aiter_lines()` (universal newlines); R2 reads recognisers written over (field, value) pairs as well.",
+    "C12": " R6 extended: the event stream is not cut into lines by `aiter_lines()`; the blank-line rule also reads recognisers over (field, value) pairs, through methods and closures of an assembler object.",
+    "C13": " Added: R4 — until a version is negotiated the stdio reader is unversioned: its batch processor is built without a version and no code of the package passes one to the client's constructor.",
+    "C14": " R5 extended: a progress token the request can go out with passes the wait's own test of it (a caller's 0 or \"\" kept while the wait tests truthiness is a finding).",
+    "C15": " Added: R8 — on the event-stream carriers a blank line ends the event and clears its name on every path (the obligations of C11-R2 / C12-R6).",
+    "C16": " Added: R9 — a file, pipe or socket the client opens for itself and keeps on the object is closed on every path of __aexit__'s outermost finally.",
+    "C17": " Added: R6 — what the stdio writer frames is one line (lifted from C06-R2).",
+    "C18": " R6 extended: no function of the package chooses a request id for its caller.",
+    "C19": " R2 extended: create_session is given the request's clientInfo member itself, not a rendering of it through a model.",
+    "C20": " R7 extended: load_config raises no error of its own on a path conditioned on the entry's timeout (float() alone decides which spellings are numbers); R4 identifies the unknown-name path by the entry itself.",
+}
+for _k, _v in _ADD10.items():
+    if _k in CHECKS and _v not in CHECKS[_k]["text"]:
+        CHECKS[_k]["text"] += _v
+
 _COMMON_NOTE = " Reading of the sources: equivalent idioms are normalised on the parsed tree (sa/normalize.py), re-exports are followed, and functions that are not in the reference decomposition (sa/units_snapshot.json) are read at their call sites (sa/inline.py); if that reading is undecided the sources are read as written, where new helpers are opaque calls: that second reading can clear the property or stay undecided, and a finding only it produces is reported as undecided (exit 2) together with what the first reading could not read."
 for _k in CHECKS:
     if _COMMON_NOTE not in CHECKS[_k]["note"]:
